@@ -118,7 +118,7 @@ Lemma BS_change (X : key -> bool) x s s' : is_epoch s' = is_epoch s ->
   (forall rq, Sreq s' rq -> Sreq s rq) -> (forall rq, Sreq s rq -> kind_of s (sq_rule rq) = KScanning) ->
   (forall k, kind_of s k = KScanning -> ri_deferred (rinfo_of s k) <> [] \/ ri_paused (rinfo_of s k) <> [] ->
              ri_deferred (rinfo_of s' k) <> [] \/ ri_paused (rinfo_of s' k) <> []) ->
-  (forall k, pending_for s k -> pending_for s' k) ->
+  (forall k, kind_of s k = KDoesNotNeedToRun -> pending_for s k -> pending_for s' k) ->
   BS x s -> BS x s'.
 Proof.
   intros He H1 H2 HS Hsk Hrec Hp [S1 S2 S3].
